@@ -43,6 +43,9 @@ RULE = ('site tables drawn from the NP1 (2x480), NP2.1 (2x640), NP2.4 (4 shanks 
         'rc2xy/xy2rc on random on/off-grid integers, all trace_header/dense_layout/split_trace_header/adc_shifts arguments. '
         'plus an exhaustive box (all ordered selections of 1..2 (quick) / 1..3 (thorough) sites of a 2x2x2 grid corner). A case is non-trivial when it has >= 2 sites; distinct by its full description (generator index, sizes, first sites).')
 ASSUMPTIONS = [
+    'results must not depend on earlier calls: repeated / interleaved calls on the same metadata dict, header dict or arrays must keep '
+    'returning the geometry of the original values (on the unchanged tree no call changes its argument objects: geometry_from_meta does '
+    '`th["y"] += 20` in place, but on the array parsed in that call); argument bit-identity itself and aliasing of results are not demanded',
     'tuple fields are parsed through np.float32: exact for values <= 2^24; generated fields are < 10^5 (the model answers outofmodel above 2^24)',
     'geometry-map coordinates off the probe grid (non-integral row/col in Python) are outside the property; the model answers '
     '"offgrid" there and the harness checks that the real code returns a non-integral row or column exactly in those cases',
@@ -208,34 +211,179 @@ def _err(e):
     return 'err ' + type(e).__name__
 
 
-def impl_geom(consts, md, major, sort, nc):
+
+# ---------------------------------------------------------------------------------------------
+# statefulness: the Lean model is a function of its arguments, so the correspondence is only meaningful if the
+# implementation is one too.  Every call below is made as a SEQUENCE (`pure_seq`) on the SAME argument objects:
+#   call 1;  call 2 (same objects);  other library functions on other data;  call 3 (same objects);
+#   call 4 on fresh equal copies of the ORIGINAL argument values.
+# What is demanded is only the property-level consequence: every result equals the first one (and hence the model
+# of the original values).  Whether a call modified its argument objects is recorded (tag `arg-modified`, quoted in
+# the message of a failing sequence) but is not itself a disagreement; returned values are never written to
+# (result aliasing an internal buffer is not part of the property).
+# ---------------------------------------------------------------------------------------------
+import collections
+PURITY = collections.Counter()
+
+
+def _snap(x):
+    if isinstance(x, np.ndarray):
+        return x.copy()
+    if isinstance(x, dict):
+        return {k: _snap(v) for k, v in x.items()}
+    if isinstance(x, (list, tuple)):
+        return type(x)(_snap(v) for v in x)
+    return x
+
+
+def _same(a, b, path='arg'):
+    """None when b is bit-identical to the snapshot a, else where it differs"""
+    if isinstance(a, np.ndarray):
+        if not isinstance(b, np.ndarray) or a.dtype != b.dtype or a.shape != b.shape or a.tobytes() != b.tobytes():
+            return f'{path} (array) was {np.asarray(a).ravel()[:6]}, now {np.asarray(b).ravel()[:6]}'
+        return None
+    if isinstance(a, dict):
+        if not isinstance(b, dict) or list(a.keys()) != list(b.keys()):
+            return f'{path} keys {list(a.keys())[:8]} -> {list(b.keys())[:8] if isinstance(b, dict) else type(b).__name__}'
+        for k in a:
+            r = _same(a[k], b[k], f'{path}[{k!r}]')
+            if r:
+                return r
+        return None
+    if isinstance(a, (list, tuple)):
+        if type(a) is not type(b) or len(a) != len(b):
+            return f'{path} changed length/type'
+        for i, (u, v) in enumerate(zip(a, b)):
+            r = _same(u, v, f'{path}[{i}]')
+            if r:
+                return r
+        return None
+    if type(a) is not type(b) or a != b:
+        return f'{path} {a!r:.60} -> {b!r:.60}'
+    return None
+
+
+_INTERLEAVE_MD = {'imDatPrb_type': 21.0, 'imDatPrb_port': 1.0, 'imDatPrb_slot': 1.0,
+                  'snsGeomMap': '(NP2013,1,0,70)(0:27:0:1)(0:59:0:1)(0:27:15:1)'}
+_INTERLEAVE_MD2 = {'imDatPrb_type': 0.0, 'imDatPrb_port': 1.0, 'imDatPrb_slot': 1.0, 'NP2.4_shank': 0.0,
+                   'snsShankMap': '(1,2,480)(0:1:3:1)(0:0:3:1)(0:0:2:0)'}
+_ICOUNT = [0]
+
+
+def _interleave():
+    """other functions of the library, on other data, between two identical calls (results are only read)"""
+    spikeglx, neuropixel = _mods()
+    i = _ICOUNT[0] = _ICOUNT[0] + 1
+    v = (1, 2, 2.4, 'NPultra')[i % 4]
+    j = i % 6
+    if j == 0:
+        neuropixel.trace_header(version=v, nshank=4 if v == 2.4 else 1)
+    elif j == 1:
+        neuropixel.adc_shifts(version=v, nc=7 + i % 5)
+    elif j == 2:
+        spikeglx.geometry_from_meta(_INTERLEAVE_MD, sort=bool(i % 4 < 2))
+    elif j == 3:
+        a = np.arange(5, dtype=np.float32)
+        neuropixel.xy2rc(a, a, version=v); neuropixel.rc2xy(a, a, version=v)
+    elif j == 4:
+        spikeglx.geometry_from_meta(_INTERLEAVE_MD2, sort=bool(i % 4 < 2))
+    else:
+        neuropixel.split_trace_header(neuropixel.dense_layout(version=2, nshank=4), shank=i % 4)
+
+
+def pure_seq(call, args, kwargs, canon, name):
+    """Run the call sequence described above.  Returns the canonical first result when every call of the sequence
+    agrees with it, else 'stateful: <the concrete call sequence and its wrong result>' (never equal to a model answer)."""
+    def one(a, k):
+        try:
+            return call(*a, **k), None
+        except (KeyError, ValueError, IndexError) as e:
+            return None, _err(e)
+
+    def differs(r, e):          # later result vs the (snapshotted) first one; canonical strings only when needed
+        if e is not None or e1 is not None:
+            return None if e == e1 else _first_diff(c1, e or canon(r))
+        if _same(r1, r, 'result') is None:
+            return None
+        c = canon(r)
+        return None if c == c1 else _first_diff(c1, c)
+    snap_a, snap_k = _snap(args), _snap(kwargs)
+    r1, e1 = one(args, kwargs)
+    c1 = e1 or canon(r1)
+    r1 = _snap(r1)
+    mod = _same(snap_a, args) or _same(snap_k, kwargs, 'kwarg')
+    note = ''
+    if mod:
+        PURITY['arg-modified:' + name] += 1
+        note = f' [the first call changed its argument object: {mod}]'
+    PURITY['sequences:' + name] += 1
+    d = differs(*one(args, kwargs))
+    if d:
+        return f'stateful: r1 = {name}(a); r2 = {name}(a) with the same argument objects: r2 differs from r1: ' + d + note
+    _interleave()
+    d = differs(*one(args, kwargs))
+    if d:
+        return (f'stateful: r1 = {name}(a); r2 = {name}(a); other library calls on other data '
+                f'(trace_header / adc_shifts / geometry_from_meta / xy2rc / split_trace_header); r3 = {name}(a): r3 differs from r1: '
+                + d + note)
+    d = differs(*one(_snap(snap_a), _snap(snap_k)))
+    if d:
+        return f'stateful: {name}(fresh copy of the original a) after three calls differs from the first call: ' + d + note
+    return c1
+
+
+def _first_diff(c1, c2):
+    t1, t2 = c1.split(), c2.split()
+    for u, v in zip(t1, t2):
+        if u != v:
+            k1, _, v1 = u.partition('='); _, _, v2 = v.partition('=')
+            l1, l2 = v1.split(','), v2.split(',')
+            for i, (x, y) in enumerate(zip(l1, l2)):
+                if x != y:
+                    return f'{k1}[{i}] = {x} (first call) vs {y}'
+            return f'{u[:60]} vs {v[:60]}'
+    return f'{c1[:60]} vs {c2[:60]}'
+
+
+def impl_geom(consts, md, major, sort, nc, pure=True):
     spikeglx, _ = _mods()
+
+    def canon(res):
+        th, inds = res
+        if th is None:
+            return 'none' if inds is None else 'bad-none'
+        c = canon_geom(th, den_of(consts, major))
+        if not c.startswith('den='):
+            return c
+        return 'ok ' + c + ' inds=' + (_ints(inds) or 'non-integral')
+
+    def call(m, **kw):
+        return spikeglx.geometry_from_meta(m, **kw)
+    kw = {'return_index': True, 'nc': nc, 'sort': sort}
+    if pure:
+        return pure_seq(call, (md,), kw, canon, 'geometry_from_meta')
     try:
-        th, inds = spikeglx.geometry_from_meta(md, return_index=True, nc=nc, sort=sort)
+        return canon(call(md, **kw))
     except (KeyError, ValueError, IndexError) as e:
         return _err(e)
-    if th is None:
-        return 'none' if inds is None else 'bad-none'
-    c = canon_geom(th, den_of(consts, major))
-    if not c.startswith('den='):
-        return c
-    return 'ok ' + c + ' inds=' + (_ints(inds) or 'non-integral')
 
 
 def impl_geomsplit(consts, md, major, sort, s):
     spikeglx, neuropixel = _mods()
     try:
         th = spikeglx.geometry_from_meta(md, sort=sort)
-        if th is None:
-            return 'none'
-        c0 = canon_geom(th, den_of(consts, major))
-        if not c0.startswith('den='):
-            return c0
-        th = neuropixel.split_trace_header(th, shank=s)
     except (KeyError, ValueError, IndexError) as e:
         return _err(e)
-    c = canon_geom(th, den_of(consts, major))
-    return ('ok ' + c) if c.startswith('den=') else c
+    if th is None:
+        return 'none'
+    c0 = canon_geom(th, den_of(consts, major))
+    if not c0.startswith('den='):
+        return c0
+
+    def canon(r):
+        c = canon_geom(r, den_of(consts, major))
+        return ('ok ' + c) if c.startswith('den=') else c
+    return pure_seq(lambda h, shank: neuropixel.split_trace_header(h, shank=shank), (th,), {'shank': s}, canon, 'split_trace_header')
 
 
 # ---------------------------------------------------------------------------------------------
@@ -391,22 +539,26 @@ def correspondence(ctx):
             toks = meta_tokens(md)
             n = len(c['sites'])
             line = 'geom ' + ' '.join(toks) + f" {int(c['sort'])} {c['nc']}"
-            res = impl_geom(consts, md, major, c['sort'], c['nc'])
+            res = impl_geom(consts, md, major, c['sort'], c['nc'], pure=(n <= 64 or k % 2 == 0))   # call sequence; every 2nd large table
             outcome = res.split()[0] + (' ' + res.split()[1] if res.startswith('err') else '')
             tags = ('geom', 'version=' + str(c['version']), 'enc=' + c['enc'], nbucket(n), 'order=' + c['order'], 'sel=' + c['kind'],
                     'sort=' + str(int(c['sort'])), 'shank_key=' + ('absent' if c['shank_key'] is None else 'present'),
                     'outcome=' + outcome) + (('duplicate-site',) if c['dup'] else ())
             add('geom', case_desc(c), line, res, nontrivial=(n >= 2), tags=tags)
+            # the SAME metadata object again with the other sort flag (what a Reader opened with sort=False after one with sort=True sees)
+            if k % 5 == 2:
+                c2_ = dict(c, sort=not c['sort'])
+                add('geom', case_desc(c2_, 'geom', {'after': 'same metadata object, other sort flag first'}),
+                    'geom ' + ' '.join(toks) + f" {int(c2_['sort'])} {c['nc']}", impl_geom(consts, md, major, c2_['sort'], c['nc']),
+                    nontrivial=(n >= 2), tags=('geom', 'geom-resort'))
             # the same metadata through a written .meta file and read_geometry (sort=True, nc=384 there)
             if k % 10 == 0:
                 f = os.path.join(tmp, f'c{k}.ap.meta')
                 _write_meta(md, f)
-                try:
-                    th = spikeglx.read_geometry(f)
-                    r2 = 'none' if th is None else canon_geom(th, den_of(consts, major))
-                    r2 = ('ok ' + r2) if r2.startswith('den=') else r2
-                except (KeyError, ValueError, IndexError) as e:
-                    r2 = _err(e)
+                def canon_rg(th):
+                    c_ = 'none' if th is None else canon_geom(th, den_of(consts, major))
+                    return ('ok ' + c_) if c_.startswith('den=') else c_
+                r2 = pure_seq(spikeglx.read_geometry, (f,), {}, canon_rg, 'read_geometry')
                 os.remove(f)
                 add('read_geometry', case_desc(c, 'read_geometry'), 'geom ' + ' '.join(toks) + ' 1 384', r2,
                     nontrivial=(n >= 2), tags=('read_geometry',))
@@ -458,16 +610,13 @@ def correspondence(ctx):
                    ''.join(rng.choice(alphabet, size=int(rng.integers(0, 8)))))
         which = int(rng.integers(0, 3))
         md = {'snsShankMap': s} if which == 0 else {'snsGeomMap': s} if which == 1 else {'snsShankMap': s, 'snsGeomMap': '(0:1:2:3)'}
-        try:
-            cm = spikeglx._map_channels_from_meta(md)
+        def canon_cm(cm):
             if cm is None or all(v is None for v in cm.values()):
-                r = 'none'
-            else:
-                enc = 'geom' if 'x' in cm else 'shank'
-                cols = [cm['shank'], cm['x'] if enc == 'geom' else cm['col'], cm['y'] if enc == 'geom' else cm['row'], cm['flag']]
-                r = f'ok enc={enc} ' + ' '.join(f'c{j}=' + (_ints(c) or 'non-integral') for j, c in enumerate(cols))
-        except (KeyError, ValueError, IndexError) as e:
-            r = _err(e)
+                return 'none'
+            enc = 'geom' if 'x' in cm else 'shank'
+            cols = [cm['shank'], cm['x'] if enc == 'geom' else cm['col'], cm['y'] if enc == 'geom' else cm['row'], cm['flag']]
+            return f'ok enc={enc} ' + ' '.join(f'c{j}=' + (_ints(c) or 'non-integral') for j, c in enumerate(cols))
+        r = pure_seq(spikeglx._map_channels_from_meta, (md,), {}, canon_cm, '_map_channels_from_meta')
         toks = [_tok(md.get('snsShankMap')), _tok(md.get('snsGeomMap'))]
         add('mapch', {'op': 'mapch', 'shankMap': md.get('snsShankMap'), 'geomMap': md.get('snsGeomMap')},
             'mapch ' + ' '.join(toks), r, nontrivial=(':' in s), tags=('mapch', 'mapch=' + r.split()[0]))
@@ -478,44 +627,56 @@ def correspondence(ctx):
         v = ['1', '2', '2.4', 'NPultra'][int(rng.integers(0, 4))]
         pv = {'1': 1, '2': 2, '2.4': 2.4, 'NPultra': 'NPultra'}[v]
         r_, c_ = int(rng.integers(-5, 700)), int(rng.integers(-5, 12))
+        res = pure_seq(lambda r, c, version: neuropixel.rc2xy(r, c, version=version),
+                       (np.array([r_], dtype=np.float32), np.array([c_], dtype=np.float32)), {'version': pv},
+                       lambda xy: f"ok x={_ints(xy['x'])} y={_ints(xy['y'])}", 'rc2xy')
         xy = neuropixel.rc2xy(np.float32(r_), np.float32(c_), version=pv)
-        add('rc2xy', {'op': 'rc2xy', 'version': v, 'row': r_, 'col': c_}, f'rc2xy {v} {r_} {c_}',
-            f"ok x={_ints([xy['x']])} y={_ints([xy['y']])}", tags=('rc2xy',))
+        add('rc2xy', {'op': 'rc2xy', 'version': v, 'row': r_, 'col': c_}, f'rc2xy {v} {r_} {c_}', res, tags=('rc2xy',))
         if rng.random() < 0.6:
             x, y = int(xy['x']), int(xy['y'])
             if rng.random() < 0.3:
                 x += int(rng.integers(-3, 4)); y += int(rng.integers(-3, 4))
         else:
             x, y = int(rng.integers(-40, 400)), int(rng.integers(-40, 10000))
-        rc = neuropixel.xy2rc(np.float32(x), np.float32(y), version=pv)
-        rr, cc = _ints([rc['row']]), _ints([rc['col']])
-        add('xy2rc', {'op': 'xy2rc', 'version': v, 'x': x, 'y': y}, f'xy2rc {v} {x} {y}',
-            'offgrid' if rr is None or cc is None else f'ok row={rr} col={cc}', tags=('xy2rc', 'xy2rc=' + ('off' if rr is None or cc is None else 'on')))
+        def canon_rc(rc):
+            rr, cc = _ints(rc['row']), _ints(rc['col'])
+            return 'offgrid' if rr is None or cc is None else f'ok row={rr} col={cc}'
+        res = pure_seq(lambda x_, y_, version: neuropixel.xy2rc(x_, y_, version=version),
+                       (np.array([x], dtype=np.float32), np.array([y], dtype=np.float32)), {'version': pv}, canon_rc, 'xy2rc')
+        add('xy2rc', {'op': 'xy2rc', 'version': v, 'x': x, 'y': y}, f'xy2rc {v} {x} {y}', res,
+            tags=('xy2rc', 'xy2rc=' + ('off' if res == 'offgrid' else 'on')))
 
     # --- 4. canonical layouts, trace headers, their splits, ADC tables, version tags (exhaustive over the arguments)
     pvs = {'1': 1, '2': 2, '2.4': 2.4, 'NPultra': 'NPultra'}
     for v, pv in pvs.items():
         den = den_of(consts, v)
         for ns in (1, 2, 3, 4):
+            cg = lambda h, den=den: 'ok ' + canon_geom(h, den)
             for op, fn in (('dense', neuropixel.dense_layout), ('trace', neuropixel.trace_header)):
-                try:
-                    r = 'ok ' + canon_geom(fn(version=pv, nshank=ns), den)
-                except (KeyError, ValueError, IndexError) as e:
-                    r = _err(e)
+                r = pure_seq(lambda version, nshank, fn=fn: fn(version=version, nshank=nshank), (), {'version': pv, 'nshank': ns}, cg, fn.__name__)
                 add(op, {'op': op, 'version': v, 'nshank': ns}, f'{op} {v} {ns}', r, tags=(op,))
+            try:
+                h_ = neuropixel.trace_header(version=pv, nshank=ns)     # ONE header object split into all shanks, as a user would
+            except (KeyError, ValueError, IndexError):
+                h_ = None
             for s in range(0, 5):
                 try:
-                    r = 'ok ' + canon_geom(neuropixel.split_trace_header(neuropixel.trace_header(version=pv, nshank=ns), shank=s), den)
+                    if h_ is None:
+                        h_ = neuropixel.trace_header(version=pv, nshank=ns)
+                    r = pure_seq(lambda h, shank: neuropixel.split_trace_header(h, shank=shank), (h_,), {'shank': s}, cg, 'split_trace_header')
                 except (KeyError, ValueError, IndexError) as e:
                     r = _err(e)
                 add('tracesplit', {'op': 'tracesplit', 'version': v, 'nshank': ns, 'shank': s}, f'tracesplit {v} {ns} {s}', r, tags=('tracesplit',))
         for nc in sorted(set([0, 1, 2, 3, 11, 12, 13, 23, 24, 25, 31, 32, 33, 191, 192, 383, 384, 385, 500] +
                              [int(x) for x in ctx.subrng(4).integers(0, 420, ctx.n(10, 120))])):
-            ss, adc = neuropixel.adc_shifts(version=pv, nc=nc)
-            num = np.rint(np.asarray(ss) * den)
-            ok = np.array_equal(num / den, np.asarray(ss))
+            def canon_adc(res, den=den):
+                ss, adc = res
+                num = np.rint(np.asarray(ss) * den)
+                ok = np.array_equal(num / den, np.asarray(ss))
+                return f"ok den={den} ss={_ints(num) if ok else 'inexact'} adc={_ints(adc)}"
             add('adc', {'op': 'adc', 'version': v, 'nc': nc}, f'adc {v} {nc}',
-                f"ok den={den} ss={_ints(num) if ok else 'inexact'} adc={_ints(adc)}", nontrivial=nc > 1, tags=('adc',))
+                pure_seq(lambda version, nc: neuropixel.adc_shifts(version=version, nc=nc), (), {'version': pv, 'nc': nc}, canon_adc, 'adc_shifts'),
+                nontrivial=nc > 1, tags=('adc',))
     for te in (0, 1):
         for pt in (None, 0, 21, 24, 1030, 2013, 1100, 1300, 7):
             for ps in (0, 1, 2):
@@ -533,6 +694,11 @@ def correspondence(ctx):
                 add('version', {'op': 'version', 'typeEnabled': te, 'prbType': pt, 'portslot': ps},
                     f"version {te} {'-' if pt is None else pt} {1 if ps == 2 else 0}", f'{tag} {mj}', tags=('version',))
 
+    ctx.note('call sequences (same objects: call, call, interleaved library calls, call, fresh copy): ' +
+             ', '.join(f'{k}={v}' for k, v in sorted(PURITY.items())))
+    for k_, v_ in PURITY.items():
+        if k_.startswith('arg-modified'):
+            ctx.dist[k_] += v_
     model = ctx.lean(lines)
     for (op, desc, nontrivial, tags), a, b in zip(meta, impl, model):
         if op == 'read_geometry':          # read_geometry does not return the index list
@@ -573,6 +739,23 @@ def _eq(a, b):
     return np.array_equal(np.asarray(a, dtype=float), np.asarray(b, dtype=float))
 
 
+def _canon_any(r):
+    """any returned value -> 'key=v,v,...' tokens (exact repr of the floats)"""
+    if r is None:
+        return 'None'
+    if isinstance(r, dict):
+        return ' '.join(f'{k}=' + ','.join(repr(float(v)) for v in np.asarray(r[k]).ravel()) for k in r) or 'empty-dict'
+    if isinstance(r, (tuple, list)):
+        return ' '.join(f'ret{i}:' + _canon_any(v) for i, v in enumerate(r))
+    return 'value=' + ','.join(repr(float(v)) for v in np.asarray(r).ravel())
+
+
+def _seq(call, args, kwargs, name):
+    """None, or the concrete call sequence on the same objects whose later result differs from the first"""
+    r = pure_seq(call, args, kwargs, _canon_any, name)
+    return r if r.startswith('stateful:') else None
+
+
 def oracle_table(inp):
     """C08 on one site table.  inp: {'version', 'sites': [(shank, col, row, flag)...]}; None when it holds."""
     spikeglx, neuropixel = _mods()
@@ -587,6 +770,12 @@ def oracle_table(inp):
     for enc in encs:
         c = {'version': tag, 'sites': sites, 'enc': enc, 'shank_key': None}
         md = build_meta(c)
+        # results must not depend on earlier calls: same metadata object, repeated / interleaved / other sort flag
+        for srt in (True, False, True):
+            r = _seq(lambda m, **kw: spikeglx.geometry_from_meta(m, **kw), (md,), {'sort': srt, 'return_index': True},
+                     f'geometry_from_meta[sort={srt}]')
+            if r:
+                return f'{enc} map, md = c08.build_meta(input, enc={enc!r}): ' + r
         try:
             U = _geo(md, False)
             S = _geo(md, True)
@@ -639,8 +828,23 @@ def oracle_table(inp):
         if not (_eq(rc['row'], U['row']) and _eq(rc['col'], U['col']) and _eq(xy['x'], U['x']) and _eq(xy['y'], U['y'])):
             return f'{enc} map: xy2rc / rc2xy are not inverse on the sites of this table'
         # a split shank's geometry is the restriction of its parent's
-        for srt, P in ((False, U), (True, S)):
+        for srt, P in ((False, _snap(U)), (True, _snap(S))):
+            P0 = _snap(P)       # one header object split into several shanks, each result vs the split of the original values
+            done = []
+            for s in [9] + sorted({t[0] for t in sites}):
+                try:
+                    a_, b_ = _canon_any(neuropixel.split_trace_header(P, shank=s)), _canon_any(neuropixel.split_trace_header(_snap(P0), shank=s))
+                except Exception as e:
+                    return f'{enc} map: split_trace_header raised {type(e).__name__}: {e}'
+                done.append(s)
+                if a_ != b_:
+                    return (f'{enc} map, P = geometry_from_meta(md, sort={srt}); ' + '; '.join(f'split_trace_header(P, {q})' for q in done) +
+                            f': the last result differs from split_trace_header(original P, {s}): ' + _first_diff(b_, a_))
+            P = _snap(P0)
             for s in sorted({t[0] for t in sites}):
+                r = _seq(lambda h, shank: neuropixel.split_trace_header(h, shank=shank), (P,), {'shank': s}, f'split_trace_header[shank={s}]')
+                if r:
+                    return f'{enc} map, P = geometry_from_meta(md, sort={srt}): ' + r
                 mds = dict(md)
                 mds['NP2.4_shank'] = float(s)
                 try:
@@ -676,6 +880,17 @@ def oracle_global(inp):
     ns = int(inp.get('nshank', 1))
     fam = {'1': 'NP1', '2': 'NP2.1', '2.4': 'NP2.4', 'NPultra': 'NPultra'}[v]
     NC = neuropixel.NC
+    for nm, fn, kw in (('trace_header', neuropixel.trace_header, {'version': pv, 'nshank': ns}),
+                       ('dense_layout', neuropixel.dense_layout, {'version': pv, 'nshank': ns}),
+                       ('adc_shifts', neuropixel.adc_shifts, {'version': pv}), ('adc_shifts', neuropixel.adc_shifts, {'version': pv, 'nc': 50})):
+        r = _seq(lambda fn=fn, **k: fn(**k), (), kw, f'{nm}[{kw}]')
+        if r:
+            return r
+    a_ = np.array([0, 1, 2, 3, 40], dtype=np.float32)
+    for nm, fn in (('rc2xy', neuropixel.rc2xy), ('xy2rc', neuropixel.xy2rc)):
+        r = _seq(lambda p, q, fn=fn: fn(p, q, version=pv), (a_.copy(), a_.copy() * 3), {}, f'{nm}[arrays [0,1,2,3,40], 3x that; version={v}]')
+        if r:
+            return r
     try:
         h = neuropixel.trace_header(version=pv, nshank=ns)
     except Exception as e:
@@ -736,6 +951,9 @@ def oracle_global(inp):
             return f'trace_header({v}, {ns}) and the geometry read from its own shank map differ on {k}[{i}]: {float(h[k][i])} vs {float(G[k][i])}'
     # split_trace_header = restriction
     for s in range(0, 4):
+        r = _seq(lambda hh, shank: neuropixel.split_trace_header(hh, shank=shank), (h,), {'shank': s}, f'split_trace_header[trace_header({v}, {ns}), shank={s}]')
+        if r:
+            return r
         R = neuropixel.split_trace_header(h, shank=s)
         m = np.asarray(h['shank']) == s
         for k in h.keys():
@@ -828,7 +1046,8 @@ def search(ctx, reasons):
     inp, r = _shrink(best[0], best[1])
     return {'input': inp, 'observed': r,
             'expected': ('C08: each site listed once; sort = permutation ordered by shank,row,-col moving all attributes; rc<->xy inverse; '
-                         'both encodings equal; split = restriction of parent; ADC by channel number, distinct evenly spaced delays; canonical layouts consistent'),
+                         'both encodings equal; split = restriction of parent; ADC by channel number, distinct evenly spaced delays; canonical layouts consistent; '
+                         'the same on every repeated / interleaved call with the same argument objects'),
             'how': "python (PYTHONPATH=/repo/src:/verif/harness): from props import c08; print(c08.oracle(input))  -- "
                    "builds the metadata with c08.build_meta and calls spikeglx.geometry_from_meta / neuropixel.trace_header"}
 
